@@ -24,6 +24,7 @@ type Frame struct {
 	defers []ssa.CallCommon
 	unroll map[*ssa.BasicBlock]int
 	loopFrame map[string]string
+	loopVars  map[string]Val // variables introduced by "loop N forkey"
 }
 
 func (f *Frame) clone() *Frame {
@@ -33,6 +34,12 @@ func (f *Frame) clone() *Frame {
 	}
 	for k, v := range f.inLoop {
 		n.inLoop[k] = v
+	}
+	if f.loopVars != nil {
+		n.loopVars = map[string]Val{}
+		for k, v := range f.loopVars {
+			n.loopVars[k] = v
+		}
 	}
 	if f.loopFrame != nil {
 		n.loopFrame = map[string]string{}
@@ -65,6 +72,19 @@ func (e *Env) symbolic(st *State, t types.Type, name string) Val {
 	if isCtxType(t) {
 		w := e.newRootWorld(st, name)
 		return Val{K: kCtx, Typ: t, World: w, Sort: "Ctx", T: e.D.namedConst("ctx_"+name, e.sortOfT(t))}
+	}
+	if strings.HasSuffix(t.String(), "tm-db.Iterator") || strings.HasSuffix(t.String(), "cosmos-sdk/store/types.Iterator") || strings.HasSuffix(t.String(), "cosmos-sdk/types.Iterator") {
+		// an iterator handed in as a parameter: positioned somewhere in an unknown store
+		w := e.newRootWorld(st, name)
+		e.iterN++
+		it := &IterRef{ID: e.iterN, Store: &StoreRef{World: w, Comp: "pstore", Prefix: []Seg{}}, Prefix: []Seg{}}
+		e.iterHavoc(st, it)
+		return Val{K: kIter, Typ: t, Iter: it}
+	}
+	if isKVStoreType(t) {
+		// a store handed in as a parameter (light clients get their client's prefix store): its own KV component
+		w := e.newRootWorld(st, name)
+		return Val{K: kStore, Typ: t, Store: &StoreRef{World: w, Comp: "pstore", Prefix: []Seg{}}}
 	}
 	if p, ok := t.Underlying().(*types.Pointer); ok && !isMathInt(p.Elem()) {
 		if _, isStruct := p.Elem().Underlying().(*types.Struct); isStruct {
